@@ -936,10 +936,13 @@ package mqtt
 //@ ensures[C12] closed(c.exactlyOnce.seqSem) && len(c.exactlyOnce.seqSem) == 0
 //@ ensures[C12] old(len(c.exactlyOnce.seqSem)) == 1 ==> closed(c.exactlyOnce.queue) && len(c.exactlyOnce.queue) == 0
 
-// termCallbacks forks the two closures above (go statements and the WaitGroup are outside the verified subset:
-// the contract is used, not discharged); ReadSlices runs it exactly when the read routine reports ErrClosed.
+// termCallbacks forks the two closures above (the go statements are the environment here; that their work is
+// done when Wait returns is the WaitGroup's contract and not used), answers a pending ping and every pending
+// subscription request itself; ReadSlices runs it exactly when the read routine reports ErrClosed.
 //@ func mqtt.(*Client).termCallbacks
-//@ unverified
+//@ requires c.pingAck != nil && !closed(c.pingAck) && cap(c.pingAck) == 1 && c.perPacketID != nil
+//@ at[C12] send ack#1: assert Is(v, ErrBreak)
+//@ ensures[C12,C11] forall(k, !has(c.perPacketID, k)) && len(c.pingAck) == 0
 //@ func mqtt.(*Client).ReadSlices -> message, topic, err
 //@ requires[C10] rdr(c)
 //@ requires rdinv(c) && rdmaps(c) && (c.readConn == nil) == (c.bufr == nil)
